@@ -13,6 +13,7 @@ import (
 
 var unitPool = []string{"", "", "km/h", "degC", "%", "V", "rpm", " ", " km/h ", "  x", "a b", "m "}
 var factorPool = []float64{1, 1, 1, 2, 0.5, 0.1, 0.25, 10, 0.001, 1.5}
+var oneFractionPool = []float64{-0.5, -40.5, -0.1, -273.15, -1e-9, -2147483648.5, 0.5, 40.5, 1e-9}
 var offsetPool = []float64{0, 0, 0, -40, 100, 0.5, -273.15, 7}
 
 // boundary values for every numeric field (2^31, 2^32, 2^53, 2^63, 2^64, 1e19 and negatives)
@@ -360,6 +361,21 @@ func (g *gen) emitNode(m *GMsg, n *lnode, be bool, parent *lnode, groups []int, 
 			s.Min = s.Offset
 		} else {
 			s.Max = 1e15
+		}
+		if g.r.Chance(1, 6) { // exactly ONE of the four parameters fractional, of either sign
+			s.Factor, s.Offset, s.Min, s.Max = float64(1+g.r.Below(3)), float64(g.r.Below(5)*10-20), 0, 0
+			f := oneFractionPool[g.r.Below(len(oneFractionPool))]
+			switch g.r.Below(4) {
+			case 0:
+				s.Offset = f
+			case 1:
+				s.Factor = f
+			case 2:
+				s.Min = f
+			default:
+				s.Max = f
+			}
+			g.tag("sig-one-fractional-parameter")
 		}
 		if g.r.Chance(1, 6) { // boundary values
 			switch g.r.Below(4) {
